@@ -488,6 +488,67 @@ def shrink(case_line, differs):
     return best
 
 
+def miri_stage(rng, shards=16, per_shard=60):
+    """thorough tier of C02 only: the harness is run under Miri (Stacked Borrows, leak check) on a few hundred cases, so that the `unsafe` PollState /
+       MaybeUninit / pin-projection code of the crate is executed under an interpreter that reports use-after-drop, double drop, reads of uninitialised
+       memory and leaks.  Support for the correspondence (it samples), not a proof.  -> (dict for the evidence, [(cfg, error text, case or None)])"""
+    from concurrent.futures import ThreadPoolExecutor
+    combs = SCAN4 + ["race", "race_ok", "chain"]
+    n = shards * per_shard
+    # half random schedules, a quarter drawn from the exhaustive small space of the combinators that buffer values (every drop point, both answers), the rest groups and wait_until
+    small = []
+    for comb in ("join", "try_join", "zip", "merge"):
+        for cont in ("array", "tuple", "vec"):
+            sp = gen.gen_small(comb, cont, 2, 2, 3, f"ms{comb[0]}{cont[0]}")
+            small += rng.sample(sp, min(len(sp), max(1, n // 48)))
+    cases = (gen.gen_fixed(rng, "std", combs, n // 2, "mi", panic=0.1) + small + gen.gen_groups(rng, n // 8, "mg")
+             + gen.gen_wait(rng, n // 8, "mw", panic=0.1))
+    bins, err = build_harness("std")
+    if bins is None:
+        return dict(status="skipped: the harness does not build"), []
+    bd = os.path.join(CACHE, f"hsrc-{REPO_TAG}")
+    tgt = os.path.join(CACHE, f"target-miri-{REPO_TAG}")
+    env = dict(os.environ, CARGO_NET_OFFLINE="true", MIRIFLAGS="-Zmiri-disable-isolation")
+    cmd = ["cargo", "+nightly", "miri", "run", "-q", "--offline", "--features", "fc-std", "--bin", "fc-harness", "--target-dir", tgt]
+
+    def one(chunk):
+        try:
+            p = subprocess.run(cmd, input="\n".join(chunk) + "\n", text=True, capture_output=True, cwd=bd, env=env, timeout=1500)
+            return p.stdout.splitlines(), p.returncode, p.stderr
+        except subprocess.TimeoutExpired:
+            return [], 124, "timeout"
+    # build once (serial), then the shards in parallel
+    out0, rc0, err0 = one(cases[:1])
+    if rc0 != 0 and not re.search(r"Undefined Behavior|memory leaked|Data race", err0):
+        return dict(status="skipped: cargo +nightly miri is not usable here: " + err0.strip().splitlines()[-1][:200] if err0.strip() else "skipped"), []
+    chunks = [cases[i::shards] for i in range(shards)]
+    with ThreadPoolExecutor(shards) as ex:
+        res = list(ex.map(one, chunks))
+    native, _ = run_impl(bins, "scan", cases)
+    # which waker a child is handed is told apart by Waker::will_wake, i.e. by vtable addresses, which are not unique under Miri: the labels are dropped
+    nolabel = lambda l: re.sub(r"\b(c\d+):\S+", r"\1", l)
+    native = {l.split(" ")[0]: nolabel(l) for l in (native or [])}
+    fails, ran, differ = [], 0, 0
+    for chunk, (out, rc, errtxt) in zip(chunks, res):
+        ran += len(out)
+        for l in out:
+            if native and native.get(l.split(" ")[0]) != nolabel(l):
+                differ += 1
+        if rc != 0:
+            m = re.search(r"error: (Undefined Behavior[^\n]*|memory leaked[^\n]*|Data race[^\n]*)(?:\n[^\n]*){0,6}", errtxt)
+            bad = chunk[len(out)] if len(out) < len(chunk) else None
+            if bad is None:      # a leak is reported when the process exits: find a case that leaks on its own
+                with ThreadPoolExecutor(shards) as ex2:
+                    singles = list(ex2.map(lambda c: one([c]), chunk))
+                bad = next((c for c, (_, rc1, _) in zip(chunk, singles) if rc1 != 0), None)
+            fails.append(("std", "Miri: " + (m.group(0) if m else errtxt.strip()[-400:]), bad))
+    if differ:
+        fails.append(("std", f"Miri: {differ} traces differ from the native run of the same cases (waker labels aside)", None))
+    return dict(status="ran", cases=ran, errors=len(fails), traces_differing_from_native_run_waker_labels_aside=differ,
+                flags="-Zmiri-disable-isolation (Stacked Borrows and the leak check are on by default)"), fails
+
+
+
 def load_known(pid):
     p = os.path.join(ROOT, "known_findings.txt")
     out = []
@@ -586,6 +647,11 @@ def decide(pid, tier, seed):
                     diffs.append((sname, cfg, case, a, b, why))
                 elif why:
                     monfails.append((sname, cfg, case, a, why))
+    miri = None
+    if tier == "thorough" and pid == "C02":
+        miri, mfails = miri_stage(rng)
+        for (cfg, err, bad) in mfails:
+            batch_fail.append(("miri", cfg, err, bad))
     if not stats["samples"] and suites:
         c = suites[0][3][0]
         stats["samples"].append(dict(suite=suites[0][0], config=suites[0][1], case=c))
@@ -668,7 +734,7 @@ def decide(pid, tier, seed):
                   coq_predicate_evaluations_on_impl_traces=stats.get("coq_monitor_evals", 0),
                   monitor_errors=stats.get("monitor_errors", [])[:5],
                   traces_validated_against_impl=stats["evaluations"], correspondence_differences=len(diffs), monitor_failures=len(monfails),
-                  known_findings_matched=len(known_hits), exhaustive=False),
+                  known_findings_matched=len(known_hits), exhaustive=False, **({"miri": miri} if miri else {})),
               assumptions=["the model predicts the implementation on the cases that were not run",
                            "std::sync::Mutex / Arc / Waker behave as specified; wakes from other threads land in the windows where the readiness lock is free",
                            "no usize overflow"])
